@@ -35,7 +35,23 @@ def trace_lens(args):
         optic.set_polarization(PolarizationState(is_polarized=True, Ex=1.0, Ey=0.0, phase_x=0.0, phase_y=0.0))
     events = []
     try:
-        for w in optic.wavelengths.get_wavelengths()[:2]:
+        wl2 = optic.wavelengths.get_wavelengths()[:2]
+        if not polarized and seed % 3 == 1 and len(wl2) == 2:
+            # one bundle whose rays carry two different wavelengths (RealRays.w is per ray): each
+            # ray is attenuated with its own wavelength
+            n = nrays + nrays % 2
+            Hy = np.array([rnd.uniform(-1, 1) for _ in range(n)])
+            rr = np.sqrt(np.array([rnd.random() for _ in range(n)]))
+            th = np.array([rnd.uniform(0, 2 * math.pi) for _ in range(n)])
+            first = rnd.randrange(2)
+            warr = np.array([wl2[(first + j) % 2] for j in range(n)])
+            rays = G.quiet(optic.trace_generic, np.zeros(n), Hy, rr * np.cos(th), rr * np.sin(th), warr)
+            for q in (0, 1):
+                events += RR.record_events(optic, wl2[(first + q) % 2], ray_base=len(events), returned=rays,
+                                           pick=list(range(q, n, 2)))
+            meta["polychromatic_bundle"] = True
+            wl2 = []
+        for w in wl2:
             n = nrays
             Hy = np.array([rnd.uniform(-1, 1) for _ in range(n)])
             rr = np.sqrt(np.array([rnd.random() for _ in range(n)]))
